@@ -297,7 +297,9 @@ def rows_of(dag, n):
     rows = []
     for i in range(n):
         r = dag.values["n%d" % i]
-        rows.append([r.status.name, [int(j) for j in r.jobid], r.restarts])
+        # a job id the scheduler never issued (None, garbage) is kept as the sentinel 4999: monitor code 12
+        # (job-id column = ids returned by successful submissions) then flags it on the implementation's trace
+        rows.append([r.status.name, [int(j) if str(j).isdigit() else 4999 for j in r.jobid], r.restarts])
     return rows
 
 
